@@ -344,7 +344,7 @@ def check_files(res, c, tmp):
 # ----------------------------------------------------------------------------- driver
 def gen_cases(seed, tier):
     rng = random.Random(seed)
-    nr, no, nl, nf = (2000, 2000, 1200, 800) if tier == 'quick' else (30000, 30000, 15000, 10000)
+    nr, no, nl, nf = (2000, 2000, 1200, 800) if tier == 'quick' else (60000, 60000, 30000, 20000)
     cs = [{'family': 'record', 'seed': rng.randrange(10 ** 9), 'k': rng.choice(KS), 'n': rng.choice([0, 1, 2, 5, 12])} for _ in range(nr)]
     cs += [{'family': 'ops', 'seed': rng.randrange(10 ** 9), 'mixk': rng.random() < 0.5, 'homog': rng.random() < 0.5,
             'nops': rng.choice([6, 12, 25])} for _ in range(no)]
@@ -360,12 +360,15 @@ def work(cs):
     res = Result('', '')
     tmp = tempfile.mkdtemp(prefix='rtc_c20_', dir='/tmp')
     soft, hard = resource.getrlimit(resource.RLIMIT_AS)
-    resource.setrlimit(resource.RLIMIT_AS, (6 * 2 ** 30, hard))      # a runaway operation must not eat the machine
+    resource.setrlimit(resource.RLIMIT_AS, (2 * 2 ** 30, hard))      # a runaway operation must not eat the machine
     old = signal.signal(signal.SIGALRM, _alarm)
     try:
+        hung = {}
         for c in cs:
             fam = c['family']
-            signal.alarm(20)
+            if hung.get(fam, 0) >= 2:              # this family hangs on this tree: already reported, do not wait again
+                continue
+            signal.alarm(5)
             try:
                 if fam in ('record', 'ops'):
                     (check_record if fam == 'record' else check_ops)(res, c)
@@ -374,7 +377,8 @@ def work(cs):
             except ApiError as e:
                 res.violation('C20/bounded/%s/raises' % fam, e, c)
             except (Timeout, MemoryError) as e:
-                res.violation('C20/bounded/%s/completes' % fam, 'no completion within 20 s / 6 GB: %r' % (e,), c)
+                hung[fam] = hung.get(fam, 0) + 1
+                res.violation('C20/bounded/%s/completes' % fam, 'no completion within 5 s / 2 GB: %r' % (e,), c)
             finally:
                 signal.alarm(0)
     finally:
@@ -389,7 +393,8 @@ def run(tier='quick', seed=0):
     res = Result(rule='seeded cases: record (n in 0..12 calls, x as list/tuple/array/numpy scalars/scalar of 1..5 entries, y python/'
                  'numpy scalar or 2..3-vector, id None/int, k in %r; values from %r + random); ops (6..25 random operations on 3 '
                  'monitors, model compared after each); log (interval 1..5, n 0..9, d 1..4); files (3 writers x 4 readers, n 1..6, '
-                 'd 1..3, id modes none/same/mixed/some, k None/-1/2). distinct = family + its configuration class.'
+                 'd 1..3, id modes none/same/mixed/some, k None/-1/2). distinct = family + its configuration class. Not exercised: '
+                 'x.extend(x) / x.prepend(x) (the monitor passed is the target; prepend(self) does not return).'
                  % (KS[1:], SPECIAL), bound='<= 12 records per call sequence, <= 25 operations, <= 5 parameters')
     for part in pmap(work, [cs[i::64] for i in range(64)]):
         res.merge(part)
